@@ -56,7 +56,9 @@ class Parser:
         return tok[0] == 'id' and (tok[1] in self.typenames or tok[1] in ('typeof', '__typeof__', '_Atomic'))
 
     def skip_type(self):
+        """skip a type name; returns the tokens it consisted of (for the typed evaluator of sa/lib_c16.py)"""
         n = 0
+        start = self.i
         while self.is_type():
             tok = self.peek()
             self.i += 1; n += 1
@@ -76,6 +78,7 @@ class Parser:
             self.i += 1
         if not n:
             raise NotInSubset('type expected')
+        return list(self.t[start:self.i])
 
     # statements -------------------------------------------------------------------
     def block(self):
@@ -117,10 +120,18 @@ class Parser:
             inc = self.expr() if self.peek() != ('p', ')') else None
             self.eat(')')
             return ('for', init, cond, inc, self.stmt())
-        if tok[0] == 'id' and tok[1] in ('do', 'switch', 'goto'):
+        if tok == ('id', 'do'):
+            self.eat()
+            body = self.stmt()
+            if self.peek() != ('id', 'while'):
+                raise NotInSubset('do without while')
+            self.eat(); self.eat('(')
+            c = self.expr(); self.eat(')'); self.eat(';')
+            return ('dowhile', body, c)
+        if tok[0] == 'id' and tok[1] in ('switch', 'goto'):
             raise NotInSubset('statement %s' % tok[1])
         if self.is_type():
-            self.skip_type()
+            tt = self.skip_type()
             name = self.eat()
             if name[0] != 'id':
                 raise NotInSubset('declarator')
@@ -128,7 +139,7 @@ class Parser:
             if self.peek() == ('p', '='):
                 self.eat(); init = self.expr()
             self.eat(';')
-            return ('decl', name[1], init)
+            return ('decl', name[1], init, tt)
         e = self.expr()
         self.eat(';')
         return ('expr', e)
@@ -165,8 +176,8 @@ class Parser:
     def unary(self):
         tok = self.peek()
         if tok == ('p', '(') and self.is_type(1):
-            self.eat(); self.skip_type(); self.eat(')')
-            return ('cast', self.unary())
+            self.eat(); tt = self.skip_type(); self.eat(')')
+            return ('cast', self.unary(), tt)
         if tok[0] == 'p' and tok[1] in ('-', '~', '!', '+'):
             self.eat()
             return ('un', tok[1], self.unary())
@@ -366,6 +377,14 @@ class Eval:
                 if self.steps > 200:
                     raise NotInSubset('loop does not terminate within 200 iterations')
                 self.exec(s[2], env)
+        elif k == 'dowhile':
+            while True:
+                self.steps += 1
+                if self.steps > 200:
+                    raise NotInSubset('loop does not terminate within 200 iterations')
+                self.exec(s[1], env)
+                if not self.ev(s[2], env):
+                    break
         elif k == 'expr':
             self.ev(s[1], env)
         else:
